@@ -1,5 +1,5 @@
-(* Concrete inputs for the `_refuted` statements of C06 (one per excluded class, the witnesses of
-   findings.d/C06.json) and a non-trivial input inside in_subset.  Generated once from the real parser's ASTs. *)
+(* Concrete inputs for the examples and `_refuted` statements of C06 (the witnesses of findings.d/C06.json, repaired
+   and open ones) and a non-trivial input inside in_subset.  Generated from the real parser's ASTs at /repo HEAD. *)
 From Delb.Base Require Import PyStr.
 From Delb.Tree Require Import ATree ITree.
 From Delb.XPath Require Import Ast Nav Eval Ref Subset Run.
@@ -9,59 +9,88 @@ Definition wa_tree : itree := (INode 1%N (PTag [] [114]%N []) [(INode 2%N (PTag 
 Definition wa_ns : nsmap := [([], [])].
 Definition wa_expr : xpath_expr := [(LocationPath false [(LocationStep AxChild (NameMatchTest None [97]%N) [(Function [108;97;115;116]%N [])])])].
 Definition wa_ctx : nd := nd_at (docnode wa_tree) [0%nat].
+(* implementation: ('ok', [(0, 1)])   XPath 1.0: [[0, 1]] *)
 (* (b) a[2 and position()=last()]  on  <r><a/><a/></r> *)
 Definition wb_tree : itree := (INode 1%N (PTag [] [114]%N []) [(INode 2%N (PTag [] [97]%N []) []); (INode 3%N (PTag [] [97]%N []) [])]).
 Definition wb_ns : nsmap := [([], [])].
 Definition wb_expr : xpath_expr := [(LocationPath false [(LocationStep AxChild (NameMatchTest None [97]%N) [(BooleanOperator OpAnd (AnyValue (VNum 2%N)) (BooleanOperator OpEq (Function [112;111;115;105;116;105;111;110]%N []) (Function [108;97;115;116]%N [])))])])].
 Definition wb_ctx : nd := nd_at (docnode wb_tree) [0%nat].
+(* implementation: ('ok', [(0, 1)])   XPath 1.0: [[0, 1]] *)
 (* (c) a[not(@k)]  on  <r><a k=""/></r> *)
 Definition wc_tree : itree := (INode 1%N (PTag [] [114]%N []) [(INode 2%N (PTag [] [97]%N [([], [107]%N, [])]) [])]).
 Definition wc_ns : nsmap := [([], [])].
-Definition wc_expr : xpath_expr := [(LocationPath false [(LocationStep AxChild (NameMatchTest None [97]%N) [(Function [110;111;116]%N [(AttributeValue None [107]%N)])])])].
+Definition wc_expr : xpath_expr := [(LocationPath false [(LocationStep AxChild (NameMatchTest None [97]%N) [(Function [110;111;116]%N [(HasAttribute None [107]%N)])])])].
 Definition wc_ctx : nd := nd_at (docnode wc_tree) [0%nat].
+(* implementation: ('ok', [])   XPath 1.0: [] *)
 (* (d) a[@k!='1']  on  <r><a/></r> *)
 Definition wd_tree : itree := (INode 1%N (PTag [] [114]%N []) [(INode 2%N (PTag [] [97]%N []) [])]).
 Definition wd_ns : nsmap := [([], [])].
 Definition wd_expr : xpath_expr := [(LocationPath false [(LocationStep AxChild (NameMatchTest None [97]%N) [(BooleanOperator OpNe (AttributeValue None [107]%N) (AnyValue (VStr [49]%N)))])])].
 Definition wd_ctx : nd := nd_at (docnode wd_tree) [0%nat].
+(* implementation: ('ok', [])   XPath 1.0: [] *)
 (* (e) a[@k='']  on  <r><a/></r> *)
 Definition we_tree : itree := (INode 1%N (PTag [] [114]%N []) [(INode 2%N (PTag [] [97]%N []) [])]).
 Definition we_ns : nsmap := [([], [])].
 Definition we_expr : xpath_expr := [(LocationPath false [(LocationStep AxChild (NameMatchTest None [97]%N) [(BooleanOperator OpEq (AttributeValue None [107]%N) (AnyValue (VStr [])))])])].
 Definition we_ctx : nd := nd_at (docnode we_tree) [0%nat].
+(* implementation: ('ok', [])   XPath 1.0: [] *)
 (* (f) a[@k<2]  on  <r><a k="1"/></r> *)
 Definition wf_tree : itree := (INode 1%N (PTag [] [114]%N []) [(INode 2%N (PTag [] [97]%N [([], [107]%N, [49]%N)]) [])]).
 Definition wf_ns : nsmap := [([], [])].
 Definition wf_expr : xpath_expr := [(LocationPath false [(LocationStep AxChild (NameMatchTest None [97]%N) [(BooleanOperator OpLt (AttributeValue None [107]%N) (AnyValue (VNum 2%N)))])])].
 Definition wf_ctx : nd := nd_at (docnode wf_tree) [0%nat].
+(* implementation: ('ok', [(0, 0)])   XPath 1.0: [[0, 0]] *)
 (* (g) text()[contains(@k,'')]  on  <r>t</r> *)
 Definition wg_tree : itree := (INode 1%N (PTag [] [114]%N []) [(INode 2%N (PText [116]%N) [])]).
 Definition wg_ns : nsmap := [([], [])].
 Definition wg_expr : xpath_expr := [(LocationPath false [(LocationStep AxChild (NodeTypeTest KTextNode) [(Function [99;111;110;116;97;105;110;115]%N [(AttributeValue None [107]%N); (AnyValue (VStr []))])])])].
 Definition wg_ctx : nd := nd_at (docnode wg_tree) [0%nat].
+(* implementation: ('ok', [(0, 0)])   XPath 1.0: [[0, 0]] *)
 (* (h) ..  on  <r/> *)
 Definition wh_tree : itree := (INode 1%N (PTag [] [114]%N []) []).
 Definition wh_ns : nsmap := [([], [])].
 Definition wh_expr : xpath_expr := [(LocationPath false [(LocationStep AxParent (NodeTypeTest KTagNode) [])])].
 Definition wh_ctx : nd := nd_at (docnode wh_tree) [0%nat].
+(* implementation: ('ok', [])   XPath 1.0: [] *)
 (* (i) a[text()='']  on  <r><a/></r> *)
 Definition wi_tree : itree := (INode 1%N (PTag [] [114]%N []) [(INode 2%N (PTag [] [97]%N []) [])]).
 Definition wi_ns : nsmap := [([], [])].
 Definition wi_expr : xpath_expr := [(LocationPath false [(LocationStep AxChild (NameMatchTest None [97]%N) [(BooleanOperator OpEq (Function [116;101;120;116]%N []) (AnyValue (VStr [])))])])].
 Definition wi_ctx : nd := nd_at (docnode wi_tree) [0%nat].
+(* implementation: ('ok', [(0, 0)])   XPath 1.0: [] *)
 (* (j) *[@p:k]  on  <r xmlns="u" xmlns:p="u"><a k="1"/></r> *)
 Definition wj_tree : itree := (INode 1%N (PTag [117]%N [114]%N [([0]%N, [], [117]%N)]) [(INode 2%N (PTag [117]%N [97]%N [([], [107]%N, [49]%N); ([0]%N, [], [117]%N)]) [])]).
 Definition wj_ns : nsmap := [([112]%N, [117]%N)].
 Definition wj_expr : xpath_expr := [(LocationPath false [(LocationStep AxChild (AnyNameTest None) [(HasAttribute (Some [112]%N) [107]%N)])])].
 Definition wj_ctx : nd := nd_at (docnode wj_tree) [0%nat].
+(* implementation: ('ok', [(0, 0)])   XPath 1.0: [] *)
 (* (k) a[@k=1]  on  <r><a k="1"/></r> *)
 Definition wk_tree : itree := (INode 1%N (PTag [] [114]%N []) [(INode 2%N (PTag [] [97]%N [([], [107]%N, [49]%N)]) [])]).
 Definition wk_ns : nsmap := [([], [])].
 Definition wk_expr : xpath_expr := [(LocationPath false [(LocationStep AxChild (NameMatchTest None [97]%N) [(BooleanOperator OpEq (AttributeValue None [107]%N) (AnyValue (VNum 1%N)))])])].
 Definition wk_ctx : nd := nd_at (docnode wk_tree) [0%nat].
+(* implementation: ('ok', [(0, 0)])   XPath 1.0: [[0, 0]] *)
+(* (m) a[@k=1]  on  <r><a k="<U+00A0>1"/></r> *)
+Definition wm_tree : itree := (INode 1%N (PTag [] [114]%N []) [(INode 2%N (PTag [] [97]%N [([], [107]%N, [160;49]%N)]) [])]).
+Definition wm_ns : nsmap := [([], [])].
+Definition wm_expr : xpath_expr := [(LocationPath false [(LocationStep AxChild (NameMatchTest None [97]%N) [(BooleanOperator OpEq (AttributeValue None [107]%N) (AnyValue (VNum 1%N)))])])].
+Definition wm_ctx : nd := nd_at (docnode wm_tree) [0%nat].
+(* implementation: ('ok', [(0, 0)])   XPath 1.0: [] *)
+(* (n) a[contains(position(),'1')]  on  <r><a/></r> *)
+Definition wn_tree : itree := (INode 1%N (PTag [] [114]%N []) [(INode 2%N (PTag [] [97]%N []) [])]).
+Definition wn_ns : nsmap := [([], [])].
+Definition wn_expr : xpath_expr := [(LocationPath false [(LocationStep AxChild (NameMatchTest None [97]%N) [(Function [99;111;110;116;97;105;110;115]%N [(Function [112;111;115;105;116;105;111;110]%N []); (AnyValue (VStr [49]%N))])])])].
+Definition wn_ctx : nd := nd_at (docnode wn_tree) [0%nat].
+(* implementation: ('crash', 'TypeError')   XPath 1.0: [[0, 0]] *)
+(* (o) a[@k=(1=2)]  on  <r><a/></r> *)
+Definition wo_tree : itree := (INode 1%N (PTag [] [114]%N []) [(INode 2%N (PTag [] [97]%N []) [])]).
+Definition wo_ns : nsmap := [([], [])].
+Definition wo_expr : xpath_expr := [(LocationPath false [(LocationStep AxChild (NameMatchTest None [97]%N) [(BooleanOperator OpEq (AttributeValue None [107]%N) (BooleanOperator OpEq (AnyValue (VNum 1%N)) (AnyValue (VNum 2%N))))])])].
+Definition wo_ctx : nd := nd_at (docnode wo_tree) [0%nat].
+(* implementation: ('ok', [])   XPath 1.0: [[0, 0]] *)
 Definition ex_tree : itree := (INode 1%N (PTag [] [114]%N []) [(INode 2%N (PTag [] [97]%N [([], [107]%N, [49]%N)]) [(INode 3%N (PText [116]%N) []); (INode 4%N (PTag [] [98]%N []) []); (INode 5%N (PText [117]%N) []); (INode 6%N (PComment [99]%N) []); (INode 7%N (PTag [] [98]%N [([], [107]%N, [50]%N); ([], [106]%N, [])]) [(INode 8%N (PText [118]%N) [])]); (INode 9%N (PPI [112]%N [113]%N) [])]); (INode 10%N (PTag [] [97]%N []) []); (INode 11%N (PTag [] [99]%N []) [(INode 12%N (PTag [117]%N [97]%N [([], [107]%N, [49]%N)]) [(INode 13%N (PTag [] [98]%N []) [])]); (INode 14%N (PText [119]%N) [])])]).
 Definition ex_ns : nsmap := [([], []); ([112]%N, [117]%N)].
-Definition ex_expr : xpath_expr := [(LocationPath true [(LocationStep AxDescendantOrSelf (NodeTypeTest KTagNode) []); (LocationStep AxChild (NameMatchTest None [97]%N) [(BooleanOperator OpEq (AttributeValue None [107]%N) (AnyValue (VStr [49]%N))); (Function [110;111;116]%N [(BooleanOperator OpEq (Function [112;111;115;105;116;105;111;110]%N []) (AnyValue (VNum 2%N)))])]); (LocationStep AxFollowing (NameMatchTest None [98]%N) [(BooleanOperator OpEq (Function [112;111;115;105;116;105;111;110]%N []) (AnyValue (VNum 1%N)))])]); (LocationPath false [(LocationStep AxChild (NameMatchTest None [99]%N) []); (LocationStep AxChild (NameMatchTest (Some [112]%N) [97]%N) []); (LocationStep AxParent (NodeTypeTest KTagNode) [])]); (LocationPath false [(LocationStep AxSelf (NodeTypeTest KTagNode) []); (LocationStep AxDescendantOrSelf (NodeTypeTest KTagNode) []); (LocationStep AxChild (NameMatchTest None [98]%N) [(BooleanOperator OpAnd (HasAttribute None [107]%N) (Function [99;111;110;116;97;105;110;115]%N [(AttributeValue None [107]%N); (AnyValue (VStr [50]%N))]))]); (LocationStep AxPrecedingSibling (NodeTypeTest KTagNode) [])])].
+Definition ex_expr : xpath_expr := [(LocationPath true [(LocationStep AxDescendantOrSelf (NodeTypeTest KTagNode) []); (LocationStep AxChild (NameMatchTest None [97]%N) [(BooleanOperator OpEq (AttributeValue None [107]%N) (AnyValue (VStr [49]%N))); (Function [110;111;116]%N [(BooleanOperator OpEq (Function [112;111;115;105;116;105;111;110]%N []) (AnyValue (VNum 2%N)))])]); (LocationStep AxFollowing (NameMatchTest None [98]%N) [(BooleanOperator OpEq (Function [112;111;115;105;116;105;111;110]%N []) (AnyValue (VNum 1%N)))])]); (LocationPath false [(LocationStep AxChild (NameMatchTest None [99]%N) []); (LocationStep AxChild (NameMatchTest (Some [112]%N) [97]%N) []); (LocationStep AxParent (NodeTypeTest KTagNode) [])]); (LocationPath false [(LocationStep AxSelf (NodeTypeTest KTagNode) []); (LocationStep AxDescendantOrSelf (NodeTypeTest KTagNode) []); (LocationStep AxChild (NameMatchTest None [98]%N) [(BooleanOperator OpAnd (HasAttribute None [107]%N) (Function [99;111;110;116;97;105;110;115]%N [(AttributeValue None [107]%N); (AnyValue (VStr [50]%N))])); (BooleanOperator OpGe (AttributeValue None [107]%N) (AnyValue (VNum 2%N))); (Function [110;111;116]%N [(HasAttribute None [120]%N)])]); (LocationStep AxPrecedingSibling (NodeTypeTest KTagNode) [])])].
 Definition ex_ctx : nd := nd_at (docnode ex_tree) [0%nat].
 
 Definition paths_of (l : list nd) : list npath := map fst l.
